@@ -447,16 +447,89 @@ class Ctx:
         res["driver_cmd"] = [driver_bin] + list(driver_args) if driver_bin else None
         return res
 
+    def _replay_ops(self, res, ops, want_key=None):
+        """Re-execute op lines (harness -replay, and the driver when want_key is None).
+        Returns True iff the failure is still there (same property-oracle key, or any model disagreement)."""
+        cmd = res.get("harness_cmd")
+        if not cmd:
+            return False
+        base = os.path.join(self.tmpdir, res["stream"] + ".shrink")
+        with open(base + ".in", "w") as f:
+            f.write("\n".join(ops) + "\n")
+        c = [x for x in cmd]
+        for flag, path in (("-ops", base + ".ops"), ("-out", base + ".go"), ("-viol", base + ".viol"), ("-stats", base + ".stats")):
+            if flag in c:
+                c[c.index(flag) + 1] = path
+        if "-replay" in c:
+            c[c.index("-replay") + 1] = base + ".in"
+        else:
+            c += ["-replay", base + ".in"]
+        env = dict(GOENV)
+        env["TMPDIR"] = self.scratch
+        rc, _ = sh(c, env=env, timeout=300)
+        if rc != 0:
+            return False
+        if want_key is not None:
+            try:
+                return any(l.split("\t")[1] == want_key for l in open(base + ".viol").read().splitlines() if "\t" in l)
+            except Exception:
+                return False
+        dc = res.get("driver_cmd")
+        if not dc:
+            return False
+        with open(base + ".ops") as fin:
+            p = subprocess.run(dc, stdin=fin, stdout=subprocess.PIPE, stderr=subprocess.DEVNULL, text=True, timeout=300)
+        return p.stdout.splitlines() != open(base + ".go").read().splitlines()
+
+    def shrink(self, res, ops, want_key=None, budget_s=45):
+        """Delta debugging on the op lines of one case (the '#case' line is kept)."""
+        if len(ops) <= 2 or len(ops) > 600:
+            return ops
+        head, body = ops[:1], ops[1:]
+        if not head[0].startswith("#case"):
+            head, body = [], ops
+        t0 = time.time()
+        if not self._replay_ops(res, head + body, want_key):
+            return ops   # not reproducible in isolation (depends on generator state): keep as is
+        n = 2
+        while len(body) >= 2 and time.time() - t0 < budget_s:
+            chunk = max(1, len(body) // n)
+            reduced = False
+            for i in range(0, len(body), chunk):
+                cand = body[:i] + body[i + chunk:]
+                if cand and self._replay_ops(res, head + cand, want_key):
+                    body = cand
+                    n = max(n - 1, 2)
+                    reduced = True
+                    break
+                if time.time() - t0 > budget_s:
+                    break
+            if not reduced:
+                if chunk == 1:
+                    break
+                n = min(n * 2, len(body))
+        return head + body
+
     def judge(self, res, theorem_hint=""):
         """Turn a correspondence result into violations: a property-oracle failure is a concrete failing
         input; a bare model/implementation disagreement means the tie no longer checks."""
         stream = res["stream"]
+        seen_keys = set()
         for v in res["viol"]:
+            if v["key"] in seen_keys or any(x.key == v["key"] for x in self.violations):
+                continue
+            seen_keys.add(v["key"])
+            ops = v["ops"]
+            if self.replay is None and len(seen_keys) <= 3:
+                ops = self.shrink(res, ops, want_key=v["key"])
             self.violate(v["key"], v["desc"],
-                         {"kind": "input", "stream": stream, "case": v["case"], "ops": v["ops"],
+                         {"kind": "input", "stream": stream, "case": v["case"], "ops": ops, "ops_before_shrinking": len(v["ops"]),
                           "what": v["desc"], "harness_cmd": res.get("harness_cmd")}, found_input=True)
         if res["mismatches"] and not res["viol"]:
             m = res["mismatches"][0]
+            if self.replay is None and m.get("case_ops"):
+                m = dict(m)
+                m["case_ops"] = self.shrink(res, m["case_ops"], want_key=None)
             self.violate("correspondence:%s" % stream,
                          "model and implementation disagree on stream %s (%d cases), first at case %s op `%s`: go=%s model=%s"
                          % (stream, len(res["mismatches"]), m["case"], m["op"][:200], m["go"][:200], m["model"][:200]),
